@@ -486,6 +486,11 @@ def _rest_body(rep, M, CM, file):
         if LAST not in ws or not (ws[LAST][0] == "call" and "now" in str(ws[LAST][1])):
             okb = False
             rep.violation("R4", f"{MOD}.ConnectionManager.{ub.name}", "last-loss-time", "the time of the last loss is not updated on every loss", file, ub.node.lineno)
+        elif str(ws[LAST][1]).endswith(".now") and not [a_ for a_ in ws[LAST][2][1:] if a_ != ("c", None)] and "datetime" in str(ws[LAST][1]) + str(ws[LAST][2][:1]):
+            # datetime.now() without a time zone is local wall-clock time: it jumps at daylight-saving changes, so two losses seconds apart can look an hour apart (or the reverse)
+            okb = False
+            rep.violation("R4", f"{MOD}.ConnectionManager.{ub.name}", "local-wall-clock", "the time of a loss is taken from datetime.now() (local time, no time zone): across a daylight-saving change the "
+                          "difference of two such readings is off by an hour, so the breaker is armed (or not) wrongly", file, ub.node.lineno, witness=show_sv(ws[LAST])[:80])
         if has_last:
             v = ws.get(flags[0])
             good = v is not None and v[0] == "cmp" and v[1] == "Lt" and "total_seconds" in str(v[2]) and LASTSV in {strip_epoch(x) if x and x[0] == "f0" else x for x in _flatten(v[2])} \
